@@ -1,6 +1,6 @@
 (* C33 -- hy.unmangle inverts hy.mangle up to mangling.
    Statements only; proofs are in Mangle/UnmangleProofs.v. *)
-From HyV Require Import Base.Text Gen.MangleTables Mangle.Model Mangle.Facts Mangle.MangleProofs Mangle.UnmangleProofs Mangle.Toy.
+From HyV Require Import Base.Text Gen.MangleTables Mangle.Model Mangle.Facts Mangle.MangleProofs Mangle.UnmangleProofs Mangle.Toy Mangle.Shape.
 
 (* The property as stated: for every non-empty name whose part after its leading underscores
    does not start with hyx_, unmangle (mangle s) does not raise and re-mangles to mangle s. *)
